@@ -19,6 +19,7 @@ func runR3(a *Analyzer, r *Results) {
 	runSPIImplementations(a, r)
 	runStorageSlots(a, r)
 	runSingletons(a, r)
+	runInPlace(a, r)
 }
 
 // ---------------------------------------------------------------- L1.start / L1.setview: no live view without an armed timer
@@ -856,5 +857,136 @@ func runSingletons(a *Analyzer, r *Results) {
 			}
 			r.Check("S0.single", props("C13", "C17", "C15", "C10"), "each component the library wires together (state, context registry, height filter, loops, election trigger; per term: term, filter, factory, log) is allocated by one constructor that is called at exactly one site, outside any loop: all parts of a node read and write the same state object", ts, pos, why == "", why, "W")
 		}
+	}
+}
+
+// ---------------------------------------------------------------- A1.inplace: slices that belong to somebody else are not rewritten
+
+// A slice that a function received as a parameter (or obtained from a call / a field) shares its backing array with
+// its owner. Filtering or compacting it in place (append(s[:0], ...), s[i] = ...) silently rewrites the owner's view:
+// the votes a leader counted are no longer the votes it embeds. Judged for slices of messages, builders and ids.
+func runInPlace(a *Analyzer, r *Results) {
+	interesting := func(t types.Type) bool {
+		sl, ok := t.Underlying().(*types.Slice)
+		if !ok {
+			return false
+		}
+		if b, isB := sl.Elem().Underlying().(*types.Basic); isB && b.Kind() == types.Byte {
+			return false
+		}
+		if isCommitteeSlice(t) {
+			return false // I3.inplace
+		}
+		// slices of messages / builders / blocks (pointers and interfaces): the things whose identity and order matter
+		switch sl.Elem().Underlying().(type) {
+		case *types.Pointer, *types.Interface:
+			return true
+		}
+		return false
+	}
+	var foreign func(v ssa.Value, seen map[ssa.Value]bool) (bool, string)
+	foreign = func(v ssa.Value, seen map[ssa.Value]bool) (bool, string) {
+		if seen[v] {
+			return false, ""
+		}
+		seen[v] = true
+		switch x := v.(type) {
+		case *ssa.Parameter:
+			return true, "parameter " + x.Name()
+		case *ssa.FreeVar:
+			return true, "captured variable " + x.Name()
+		case *ssa.Slice:
+			return foreign(x.X, seen)
+		case *ssa.Phi:
+			for _, e := range x.Edges {
+				if f, w := foreign(e, seen); f {
+					return f, w
+				}
+			}
+		case *ssa.UnOp:
+			if _, isFA := x.X.(*ssa.FieldAddr); isFA {
+				return true, "a field"
+			}
+			return foreign(x.X, seen)
+		case *ssa.Call:
+			if isBuiltin(x, "append") {
+				return foreign(x.Call.Args[0], seen)
+			}
+			if sc := x.Call.StaticCallee(); sc != nil && a.P.IsLib(sc) {
+				return true, "the result of " + shortName(sc)
+			}
+			if x.Call.IsInvoke() {
+				return true, "the result of " + x.Call.Method.Name()
+			}
+		}
+		return false, ""
+	}
+	n := 0
+	for _, f := range a.P.Funcs {
+		if isSpecTypesPkg(funcPkgPath(f)) || strings.HasPrefix(funcPkgPath(f), modPath+"/services/logger") {
+			continue
+		}
+		for _, b := range f.Blocks {
+			for _, in := range b.Instrs {
+				switch x := in.(type) {
+				case *ssa.Call:
+					if !isBuiltin(x, "append") || !interesting(x.Call.Args[0].Type()) {
+						continue
+					}
+					// append through a reslice of foreign memory
+					base := x.Call.Args[0]
+					viaReslice := false
+					seenPhi := map[ssa.Value]bool{}
+					for steps := 0; steps < 8; steps++ {
+						ph, ok := base.(*ssa.Phi)
+						if !ok || seenPhi[ph] {
+							break
+						}
+						seenPhi[ph] = true
+						// accumulator: follow the edge that enters the loop (not the appended values)
+						var next ssa.Value
+						for _, e := range ph.Edges {
+							if c, isCall := e.(*ssa.Call); isCall && isBuiltin(c, "append") {
+								continue
+							}
+							if e != ssa.Value(ph) {
+								next = e
+							}
+						}
+						if next == nil {
+							break
+						}
+						base = next
+					}
+					if sl, ok := base.(*ssa.Slice); ok {
+						viaReslice = true
+						base = sl.X
+					}
+					if !viaReslice {
+						continue
+					}
+					if fo, what := foreign(base, map[ssa.Value]bool{}); fo {
+						n++
+						r.Check("A1.inplace", props("C09", "C07", "C11", "C17"), "a slice received from somebody else (parameter, field, call result) is never compacted or filtered in place: appending through a reslice of it (s[:0], s[:n]) overwrites the elements its owner still reads", shortName(f), a.P.InstrPos(in), false,
+							"append through a reslice of "+what+" rewrites the backing array shared with its owner", "W")
+					}
+				case *ssa.Store:
+					ia, ok := x.Addr.(*ssa.IndexAddr)
+					if !ok || !interesting(ia.X.Type()) {
+						continue
+					}
+					if fo, what := foreign(ia.X, map[ssa.Value]bool{}); fo {
+						if _, isParam := ia.X.(*ssa.Parameter); isParam || strings.HasPrefix(what, "the result") || what == "a field" || strings.HasPrefix(what, "parameter") {
+							n++
+							r.Check("A1.inplace", props("C09", "C07", "C11", "C17"), "a slice received from somebody else (parameter, field, call result) is never compacted or filtered in place: appending through a reslice of it (s[:0], s[:n]) overwrites the elements its owner still reads", shortName(f), a.P.InstrPos(in), false,
+								"element store into "+what+" rewrites the slice its owner still reads", "W")
+						}
+					}
+				}
+			}
+		}
+	}
+	if n == 0 {
+		r.Check("A1.inplace", props("C09", "C07", "C11", "C17"), "a slice received from somebody else (parameter, field, call result) is never compacted or filtered in place: appending through a reslice of it (s[:0], s[:n]) overwrites the elements its owner still reads", "none", a.P.Pos(a.P.Func("services/termincommittee.NewTermInCommittee").Pos()), true, "", "W")
 	}
 }
